@@ -71,6 +71,7 @@ PROPS = {
                      "Non-trivial = the scenario contains a batch of >=2 members, a non-numeric id, or an incoming response object; distinct = scenario hash."),
     "C06": scen("c06", ["default", "default", "default", "tiny"],
                 quick=dict(cases=900, size=50), thorough=dict(cases=40000, size=80, budget_s=3000),
+                fuzz=dict(mode="c06", quick=dict(workers=4, runs=12000, max_len=1024), thorough=dict(workers=6, runs=1500000, max_len=2048)),
                 rule="rapidcheck-generated hostile traffic on raw, local-socket and HTTP/WebSocket endpoints, several connections interleaved: request objects with a "
                      "valid skeleton and hostile members (every dispatcher method; ids, params, paths, values, timeouts from 0 to 1e400, access lists, fetch ids "
                      "of every JSON shape; keys duplicated, case-varied, empty, 120 bytes long; nesting up to 240 levels; 300-byte strings; invalid escapes and "
@@ -80,15 +81,23 @@ PROPS = {
                      "deliveries and event-batch orders. Oracle: no AddressSanitizer/UndefinedBehaviorSanitizer report, no signal, no early exit; a witness "
                      "connection that only sends valid requests stays open and gets every answer; a fresh connection is served at the end. Non-trivial = at "
                      "least two hostile messages or frames reached a protocol handler; distinct = scenario hash. (All other scenario-based checks run under the "
-                     "same sanitizers and report crashes as violations of their own property.)"),
+                     "same sanitizers and report crashes as violations of their own property.) In addition 4 (quick) / 6 (thorough) coverage-guided libFuzzer "
+                     "workers run the whole daemon in-process (fuzz/dfuzz.cpp; edge coverage of the daemon's objects only): the input bytes are decoded into "
+                     "connections, framed messages with verbatim payload, byte blobs, WebSocket frames, request templates around fuzzed params, symbolic valid "
+                     "requests, ends, clock advances and read chunking; same oracle; half of the workers start from a seed corpus of valid sessions, half from "
+                     "an empty corpus; a crash artifact counts only if it reproduces from the saved input; non-trivial there = >=2 messages/frames/blobs "
+                     "delivered and the input not seen before."),
     "C07": scen("c07", ["default", "default", "small", "default"],
                 quick=dict(cases=1200, size=60), thorough=dict(cases=40000, size=100, budget_s=3000),
+                fuzz=dict(mode="c07", quick=dict(workers=2, runs=12000, max_len=1024), thorough=dict(workers=4, runs=1500000, max_len=2048)),
                 rule="rapidcheck-generated connection histories over raw, local-socket and WebSocket peers (every request kind, malformed and hostile "
                      "requests, batches, raw byte blobs, repeated authenticate with a credential file, routed requests left in flight, abrupt ends) with "
                      "injected failures of fcntl/setsockopt/getsockname/epoll_ctl/timerfd_create/timerfd_settime, ended by closing all connections or by "
                      "SIGTERM with connections open; oracles: accounted heap, peer count, open descriptors, armed timers and live blocks equal the idle "
                      "baseline after close-all, nothing open/allocated after exit, exit status 0, descriptor-hygiene monitor silent, sanitizers silent. "
-                     "Non-trivial = >=3 connections, >=1 abnormal end or junk input, and >=1 routed request (timer) existed; distinct = scenario hash."),
+                     "Non-trivial = >=3 connections, >=1 abnormal end or junk input, and >=1 routed request (timer) existed; distinct = scenario hash. "
+                     "In addition 2 (quick) / 4 (thorough) coverage-guided libFuzzer workers (fuzz/dfuzz.cpp, the daemon in-process) apply the same baseline, "
+                     "exit and hygiene oracles to byte-level generated sessions."),
     "C05": scen("c05", ["default"],
                 quick=dict(cases=1500, size=60), thorough=dict(cases=40000, size=100, budget_s=3000),
                 rule="rapidcheck-generated histories in which peers on raw, local-socket and WebSocket transports own elements, hold fetches and are caller or "
@@ -247,9 +256,13 @@ def plan_workers(spec, tier, nproc):
         return [dict(variant="default", bin=w["bin"], cases=w["cases"], size=w["size"], extra=["--mode", w["mode"]]) for w in t["plan"]]
     vs = spec["variants"]
     plan = []
-    for i in range(nproc):
+    fz = spec.get("fuzz", {}).get(tier)
+    nfz = fz["workers"] if fz else 0
+    for i in range(nproc - nfz):
         v = vs[i % len(vs)]
         plan.append(dict(variant=v, cases=t["cases"], size=t["size"], extra=t.get("extra", [])))
+    for i in range(nfz):   # coverage-guided workers (libFuzzer, in-process daemon); odd ones start from an empty corpus
+        plan.append(dict(variant="default", runner="dfuzz", mode=spec["fuzz"]["mode"], cases=fz["runs"], size=fz["max_len"], corpus="seeds" if i % 2 == 0 else "empty"))
     return plan
 
 import hashlib, shutil
